@@ -32,10 +32,35 @@ pub fn enum_load(_s: u64) -> Vec<String> {
         }
         out.push(format!("{}\u{4}", p.join("\u{1}")));                 // one rule per line, each followed by a comment that ends in a legal end-of-line character
     }
+    // a rule in the middle that does not parse: the file is rejected, and the rules before it have been added
+    for p in &progs { if p.len() >= 2 { out.push(format!("{}\u{5}", p.join("\u{1}"))); } }
     out
 }
 
+/// The rejected half: the text `:- nothing.` is put after the first rule.  load_kb_from_file must report an error and
+/// leave exactly the first rule in the knowledge base.
+fn check_load_bad(body: &str) -> Result<(), String> {
+    let rules: Vec<&str> = body.split('\u{1}').collect();
+    let candidates = [":- nothing.", "p(a) :- .", "p(a) :- q(b) r(c).", "p(a, ) :- q."];
+    let bad = match candidates.iter().find(|c| parse_rule(c).is_err()) { Some(b) => *b, None => return Err(format!("generator: all of {:?} parse", candidates)) };
+    let mut text = String::new();
+    text.push_str(rules[0]); text.push('\n'); text.push_str(bad); text.push('\n');
+    for r in &rules[1..] { text.push_str(r); text.push('\n'); }
+    let path = std::env::temp_dir().join(format!("verif_c21_bad_{}.txt", std::process::id()));
+    { let mut f = std::fs::File::create(&path).map_err(|e| e.to_string())?; f.write_all(text.as_bytes()).map_err(|e| e.to_string())?; }
+    let mut kb = KnowledgeBase::new();
+    let res = load_kb_from_file(&mut kb, path.to_str().unwrap());
+    let _ = std::fs::remove_file(&path);
+    if res.is_none() { return Err(format!("a file with the unparsable rule {:?} loads without an error", bad)); }
+    let mut kb_expected = KnowledgeBase::new();
+    add_rules!(&mut kb_expected, parse_rule(rules[0]).map_err(|e| e.to_string())?);
+    let show = |kb: &KnowledgeBase| { let mut v: Vec<String> = kb.iter().map(|(k, rs)| format!("{} => {}", k, rs.iter().map(|r| format!("{}", r)).collect::<Vec<_>>().join(" | "))).collect(); v.sort(); v };
+    if show(&kb) != show(&kb_expected) { return Err(format!("after the rejected load the knowledge base is {:?}, the rules before the bad one give {:?}", show(&kb), show(&kb_expected))); }
+    Ok(())
+}
+
 pub fn check_load(case: &str) -> Result<(), String> {
+    if case.ends_with('\u{5}') { return check_load_bad(case.trim_end_matches('\u{5}')); }
     let one_line = case.ends_with('\u{2}');
     let broken = case.ends_with('\u{3}');
     let commented = case.ends_with('\u{4}');
@@ -70,7 +95,17 @@ pub fn check_load(case: &str) -> Result<(), String> {
     let path = std::env::temp_dir().join(format!("verif_c21_{}.txt", std::process::id()));
     { let mut f = std::fs::File::create(&path).map_err(|e| e.to_string())?; f.write_all(text.as_bytes()).map_err(|e| e.to_string())?; f.write_all(b"\n").ok(); }
     let got = read_facts_and_rules(path.to_str().unwrap());
+    // the top of the loader: the knowledge base load_kb_from_file builds is the one the rules, added one by one, build
+    let mut kb_loaded = KnowledgeBase::new();
+    let load_result = load_kb_from_file(&mut kb_loaded, path.to_str().unwrap());
     let _ = std::fs::remove_file(&path);
+    if got.is_ok() {
+        if let Some(e) = load_result { return Err(format!("load_kb_from_file rejects a file whose rules all parse: {}", e)); }
+        let mut kb_expected = KnowledgeBase::new();
+        for r in &rules { add_rules!(&mut kb_expected, parse_rule(r).unwrap()); }
+        let show = |kb: &KnowledgeBase| { let mut v: Vec<String> = kb.iter().map(|(k, rs)| format!("{} => {}", k, rs.iter().map(|r| format!("{}", r)).collect::<Vec<_>>().join(" | "))).collect(); v.sort(); v };
+        if show(&kb_loaded) != show(&kb_expected) { return Err(format!("load_kb_from_file built {:?}, the rules added one by one build {:?}", show(&kb_loaded), show(&kb_expected))); }
+    }
     match got {
         Err(e) => Err(format!("file rejected: {}", e)),
         Ok(strs) => {
